@@ -7,7 +7,7 @@ CONSTANTS
   Limit = 3
   Window = 4
   MaxRound = 3
-  MaxSnaps = 7
+  MaxSnaps = 6
   MaxEarly = 1
   Late = {3}
   MaxPub = 1
